@@ -318,6 +318,11 @@ func RunBatch(cfg BatchConfig) int {
 		full := sc.Clone()
 		full.Expect = firstUnknown.V
 		min := Minimise(p, sc, firstUnknown.V.Class, 300)
+		if min.Expect == nil {
+			// the failure did not occur again while minimising (it depends on more than the scenario:
+			// the history of the process, or it is nondeterministic): keep the unminimised scenario
+			min = full.Clone()
+		}
 		os.MkdirAll(filepath.Join(cfg.VerifDir, "replays"), 0o755)
 		replayPath = filepath.Join(cfg.VerifDir, "replays", fmt.Sprintf("%s-%d-%d.json", id, cfg.Seed, firstUnknown.Index))
 		os.WriteFile(strings.TrimSuffix(replayPath, ".json")+".full.json", full.JSON(), 0o644)
